@@ -35,7 +35,7 @@ CLAIMED["C12"] = ("contract-based deductive verification: heap contracts (idle-s
   "Trusted: govc (incl. its effect analysis: field-sensitive, flow-insensitive for aliases, callees by summary), SMT solvers, go/types. Callees without contract are havocked (everything their summary says they may write). "
   "User callbacks assumed not to write library state. Four defects found by these obligations were repaired (F9, F10, F11, F27: fix commits in /repo, recorded as fixed in known_findings.json).",
   "DESIGN.md section 4, C12")
-CLAIMED["C18"] = ("contract-based verification reduced to frame conditions: per-function frame obligations (no global writes, no concurrency primitives, read-only inputs) decided by a syntactic effect analysis of every function in the package",
+CLAIMED["C18"] = ("contract-based verification reduced to frame conditions: per-function frame obligations (no global writes, no concurrency primitives, read-only inputs) decided by a syntactic effect analysis of every function in the package; bounded stand-in run under the Go race detector (12 goroutines on distinct objects with shared read-only inputs)",
   "If no call writes memory that another call can reach, every interleaving of independent calls is race-free and each call computes what it computes alone. Decided for all 340+ function bodies on every run: "
   "no function writes or takes the address of a package-level variable (transitively through callees); package-level variables are initialised by pure expressions and are not of a mutable reference kind; no go statement, "
   "channel, select, sync/atomic/unsafe/runtime use; exported functions only read caller-supplied slices. Interleavings themselves are not explored (this family cannot).",
@@ -93,9 +93,9 @@ CLAIMED["C08"] = (T_WP + " for the quad construction; the union step is C01; sam
   "DESIGN.md section 4, C08")
 CLAIMED["C13"] = (T_WP + "; the advertised range is checked by re-verifying the leaves on the 2^61 domain; sampled bounded stand-in for region-level translation and scaling invariance",
   "Proved: translation invariance and s^2 scaling of the integer cross/dot products and of the perpendicular distance (lemmas); productsAreEqual/isCollinear exact up to magnitude 2^61 (F14 repaired: integer abs); "
-  "CrossProduct sign-exact and overflow-free up to 2^30; getDx, checkCastInt64 as specified. On the advertised 2^61 domain the overflow obligations of CrossProduct, dotProduct64 and getSegmentIntersectPt FAIL with concrete operands: "
-  "recorded as known finding F13 (the witness is replayed on every run). Region-level invariance of whole operations is not decided.",
-  "Known finding F13 is the substance of this property; the check stays green only because it is recorded with its witnesses.",
+  "CrossProduct sign-exact and overflow-free up to 2^30; getDx and topX under rounded float arithmetic, checkCastInt64 as specified. On the advertised 2^61 domain the overflow obligations of CrossProduct, dotProduct64 and getSegmentIntersectPt failed with concrete operands on the pinned tree (F13); "
+  "after the repair (float64 products once a factor reaches 2^31, exact integer products below) they discharge, the integer branch with the help of a product-bound hint. Region-level invariance is not decided by proof: the sampled stand-in checks translation up to 2^52 and scaling up to 2^55 (0 failures after the repair; about 30% of the operations scaled by 2^35 failed before).",
+  "Area64's accumulator (F16) and the exactness of the floating-point branch beyond 2^31 are outside the proof; float-as-real elsewhere.",
   "DESIGN.md section 4, C13")
 CLAIMED["C03"] = (T_WP + ": safety obligations (index, slice, nil, division, make, panic) for every function in reach; zero-annotation sweep; sampled totality stand-in (panic capture, 5-second watchdog, Execute success) over adversarial arguments and out-of-range enum values",
   "No-panic proofs for all inputs (integer arithmetic wraps as in Go): 120 functions discharge every safety obligation with no precondition at all (sweep list in the contracts file), and the functions under functional contract "
